@@ -755,6 +755,17 @@ def run(rep, tier="quick", srcdir=None, only=None):
         rule_OD13(rep, prog)
     if want("C20-FR14"):
         rule_FR14(rep, prog)
+    if want("C13-AI10") or want("C13-OD5") or want("C13-AI6"):
+        # the transforms see their input only as the regions dispatch_data_apply hands them and read ahead through create_subrange / create_map: "independent
+        # of fragmentation" and "never reads outside the input" rest on the record walks of data.c tiling the byte string exactly (shared with C13)
+        from . import C13
+        pd, _u = load(["data"], tier, srcdir)
+        if want("C13-AI10"):
+            C13.rule_AI10(rep, pd)
+        if want("C13-OD5"):
+            C13.rule_OD5(rep, pd)
+        if want("C13-AI6"):
+            C13.rule_AI6(rep, pd)
 
 
 MANIFEST = {
